@@ -323,12 +323,34 @@ ref Component_clone(ref self) { return fresh_equal_copy(self, K_COMPONENT); }
 bool Model_removeUnits__ref(ref self, ref u) { __CPROVER_assert(0, "clone(): no units are moved out of another model"); return 0; }
 void removeComponentFromEntity(ref entity, ref component) { __CPROVER_assert(0, "clone(): no component is moved out of another entity"); }
 bool V_doAddComponent(ref self, ref component) { return Model_doAddComponent(self, component); }
-/* NOT under contract (DESIGN 3/C11): re-linking of units and re-creation of the variable
- * equivalences through EquivalenceMap (std::map keyed by index vectors)                      */
+/* NOT under contract (DESIGN 3/C11): re-linking of units */
 void fixComponentUnits(ref model, ref component) {}
-void recordVariableEquivalences(ref component, vmap_equiv *map, vvec_sz *stack) {}
-void generateEquivalenceMap(ref component, vmap_equiv *map, vvec_sz *stack) {}
-void applyEquivalenceMapToModel(vmap_equiv map, ref model) {}
+/* the re-creation of the variable equivalences is under contract in the equiv unit (specs/C11/equiv.h); here the
+ * calls Model::clone makes are recorded: which top-level component was recorded / descended into with which
+ * running path, and to which model the map was applied                                                       */
+bool g_rec[MAXN], g_gen[MAXN], g_rec_bad;
+ref g_orig_child[MAXN], g_applied_to;
+size_t g_n_applied;
+static void note_visit(bool *flags, ref component, vvec_sz *stack)
+{
+    bool ok = 0;
+    for (size_t k = 0; k < MAXN; ++k)
+        if (component == g_orig_child[k] && stack->n == 1 && stack->d[0] == k) {
+            flags[k] = 1;
+            ok = 1;
+        }
+    if (!ok)
+        g_rec_bad = 1;
+    if (g_n_applied != 0)
+        g_rec_bad = 1; /* recorded after the map was applied */
+}
+void recordVariableEquivalences(ref component, vmap_equiv *map, vvec_sz *stack) { note_visit(g_rec, component, stack); }
+void generateEquivalenceMap(ref component, vmap_equiv *map, vvec_sz *stack) { note_visit(g_gen, component, stack); }
+void applyEquivalenceMapToModel(vmap_equiv map, ref model)
+{
+    g_applied_to = model;
+    g_n_applied = g_n_applied + 1;
+}
 
 static void child_list(vvec_ref *v, unsigned char kind, ref lo)
 {
@@ -349,9 +371,15 @@ void h_Model_clone(void)
     for (ref k = 1; k < MFREE; ++k)
         __alive[k] = 1;
     size_t ce_nu = F_ModelImpl_mUnits[in_self].n, ce_nc = F_ComponentEntityImpl_mComponents[in_self].n;
+    for (size_t k = 0; k < MAXN; ++k)
+        g_orig_child[k] = k < ce_nc ? F_ComponentEntityImpl_mComponents[in_self].d[k] : (ref)0;
     heap_snapshot();
     ref m = Model_clone(in_self);
     __CPROVER_assert(m >= MFREE && KIND(m) == K_MODEL, "Model::clone returns a new Model");
+    for (size_t k = 0; k < MAXN; ++k)
+        __CPROVER_assert(k >= ce_nc || (g_rec[k] && g_gen[k]), "Model::clone records the equivalences of every top-level component of the ORIGINAL and of its descendants, under the path [index]");
+    __CPROVER_assert(!g_rec_bad, "Model::clone records nothing else, and nothing after the map has been applied");
+    __CPROVER_assert(g_n_applied == 1 && g_applied_to == m, "Model::clone applies the recorded equivalences once, to the CLONE");
     __CPROVER_assert(F_EntityImpl_mId[m] == F_EntityImpl_mId[in_self], "Model clone: same id");
     __CPROVER_assert(F_NamedEntityImpl_mName[m] == F_NamedEntityImpl_mName[in_self], "Model clone: same name");
     __CPROVER_assert(F_ComponentEntityImpl_mEncapsulationId[m] == F_ComponentEntityImpl_mEncapsulationId[in_self], "Model clone: same encapsulation id");
